@@ -11,6 +11,9 @@ func monitorReset() {}
 func monitorAccess(t int, site uint32, loc string, write bool) {}
 
 //go:norace
+func monitorFork(parent, child int) {}
+
+//go:norace
 func monitorAcquire(t int, p uintptr) {}
 
 //go:norace
